@@ -92,7 +92,7 @@ theorem numValue_err (env : Env) (n : NumSt) (c : Code) (h : numValue env n = .e
     all_goals (split at h <;> simp at h <;> exact h.symm)
 
 theorem endNumber_err (env : Env) (s : St) (n : NumSt) (c : Code) (a : Adj)
-    (h : endNumber env s n = .error (c, a)) : c = .NumberOutOfRange ∧ a = .excl := by
+    (h : endNumber env s n = .error (c, a)) : c = .NumberOutOfRange ∧ a = .incl := by
   unfold endNumber at h
   split at h
   · split at h
@@ -157,5 +157,80 @@ theorem finish_eof_clean_ignored (env : Env) (henv : env.tgt = .ignored) (s : St
         simp [henv] at hc
   · unfold finishMode at h
     split at h <;> simp [henv] at h <;> subst h <;> rfl
+
+end SJ.Proofs.Machine
+
+namespace SJ.Proofs.Machine
+open SJ SJ.Gen SJ.Model.Machine
+
+/-! ### every error raised by a step is a Syntax-classified code reported *including* the byte -/
+
+theorem closeArr_err (env : Env) (s : St) (c : Code) (a : Adj) (h : closeArr env s = .err c a) :
+    a = .incl ∧ classify c = .syntax := by
+  unfold closeArr at h; split at h <;> simp at h; obtain ⟨rfl, rfl⟩ := h; exact ⟨rfl, rfl⟩
+
+theorem closeObj_err (env : Env) (s : St) (c : Code) (a : Adj) (h : closeObj env s = .err c a) :
+    a = .incl ∧ classify c = .syntax := by
+  unfold closeObj at h; split at h <;> simp at h; obtain ⟨rfl, rfl⟩ := h; exact ⟨rfl, rfl⟩
+
+theorem startValue_err (env : Env) (s : St) (b : UInt8) (c : Code) (a : Adj)
+    (h : startValue env s b = .err c a) : a = .incl ∧ classify c = .syntax := by
+  unfold startValue at h
+  repeat' split at h
+  all_goals (first | (simp at h; done) | (simp at h; obtain ⟨rfl, rfl⟩ := h; exact ⟨rfl, rfl⟩))
+
+theorem stepNum_err (env : Env) (s : St) (n : NumSt) (b : UInt8) (c : Code) (a : Adj)
+    (h : stepNum env s n b = .err c a) : a = .incl ∧ classify c = .syntax := by
+  unfold stepNum at h
+  simp only at h
+  repeat' split at h
+  all_goals (first
+    | (simp at h; done)
+    | (simp at h; obtain ⟨rfl, rfl⟩ := h; exact ⟨rfl, rfl⟩)
+    | (rename_i c' a' hc; simp at h; obtain ⟨rfl, rfl⟩ := h
+       have := endNumber_err env s n _ _ hc; exact ⟨this.2, this.1 ▸ rfl⟩))
+
+theorem endStr_err (env : Env) (s : St) (st : StrSt) (c : Code) (a : Adj)
+    (h : endStr env s st = .err c a) : a = .incl ∧ classify c = .syntax := by
+  unfold endStr at h
+  simp only at h
+  repeat' split at h
+  all_goals (first | (simp at h; done) | (simp at h; obtain ⟨rfl, rfl⟩ := h; exact ⟨rfl, rfl⟩))
+
+theorem stepStr_err (env : Env) (s : St) (st : StrSt) (b : UInt8) (c : Code) (a : Adj)
+    (h : stepStr env s st b = .err c a) : a = .incl ∧ classify c = .syntax := by
+  unfold stepStr at h
+  simp only at h
+  repeat' split at h
+  all_goals (first
+    | (simp at h; done)
+    | (simp at h; obtain ⟨rfl, rfl⟩ := h; exact ⟨rfl, rfl⟩)
+    | exact endStr_err env s st c a h)
+
+theorem step1_err (env : Env) (s : St) (b : UInt8) (c : Code) (a : Adj)
+    (h : step1 env s b = .err c a) : a = .incl ∧ classify c = .syntax := by
+  unfold step1 at h
+  repeat' split at h
+  all_goals (first
+    | (simp at h; done)
+    | (simp at h; obtain ⟨rfl, rfl⟩ := h; exact ⟨rfl, rfl⟩)
+    | exact closeArr_err env s c a h
+    | exact closeObj_err env s c a h
+    | exact startValue_err env s b c a h
+    | exact stepNum_err env s _ b c a h
+    | exact stepStr_err env s _ b c a h
+    | (split at h <;> simp at h <;> obtain ⟨rfl, rfl⟩ := h <;> exact ⟨rfl, rfl⟩))
+
+theorem step_err (env : Env) (s : St) (b : UInt8) (c : Code) (a : Adj)
+    (h : step env s b = .error (c, a)) : a = .incl ∧ classify c = .syntax := by
+  unfold step at h
+  split at h
+  · simp at h
+  · rename_i c' a' h1; simp at h; obtain ⟨rfl, rfl⟩ := h; exact step1_err env s b _ _ h1
+  · rename_i s' h1
+    split at h
+    · simp at h
+    · rename_i c' a' h2; simp at h; obtain ⟨rfl, rfl⟩ := h; exact step1_err env s' b _ _ h2
+    · simp at h; obtain ⟨rfl, rfl⟩ := h; exact ⟨rfl, rfl⟩
 
 end SJ.Proofs.Machine
